@@ -169,6 +169,29 @@ CHECKS.update({
 NOT_YET = "check not built yet in this session (in progress; see DESIGN.md section 3 for the planned monitor)"
 
 
+
+# additions of the third pass (see DESIGN.md section 8.4): appended to the level text of each check
+EXTRA_TEXT = {
+    'C01': ' A directed strongly anisotropic Gaussian family (depth 3, overlapping sub-tree checks on) and slice-variable comparisons that return numpy booleans like the real float64 comparisons are part of every run.',
+    'C02': ' Start states carry a history (cache populated elsewhere, then copied/pickled/deep-copied, then assigned); after the first round trip system.metric is reassigned on the used system and the trip repeated at the same step size; a hostile implicit family (Riemannian systems, steps up to 6x the local period scale, momenta up to 12 sigma) drives the reversibility checks into refusing steps; a single-step round trip whose reversed step raises is re-run with a 20x iteration budget before it is reported.',
+    'C03': ' The finite-difference Jacobian is formed from start states that carry a history (used elsewhere, then copied/pickled/deep-copied, then assigned).',
+    'C04': " One state object is moved over several manifold points without assigning a momentum (contracts judge every projection/momentum draw at the current position); the real metric adapters' finalize is driven on a used state and whole chains with a windowed stager and a metric adapter are judged against the adapted metric; a hostile family sizes steps without regard to curvature on restricted-domain (log) and explosively growing (exp) constraints.", 'C05': ' Every case also runs a 14-call history on ONE state object (position-only / momentum-only / joint re-assignments, a copy in the middle, repeats) judging every returned value; SoftAbs systems are evaluated at exactly and nearly repeated Hessian eigenvalues with rotated eigenvectors; systems are used for flows / momentum draws before any value method in half of the cases; raw array metrics at overall scales 1e-12..1e6.',
+    'C06': ' After the first measurement system.metric is reassigned on the used system and the orders are measured again against the flow of the new Hamiltonian; start states carry a history.',
+    'C07': " Repeated h1 kicks on one state must add up and be undone by the negative total; the system's own h2 must be conserved along h2_flow (evaluated only after the flow ran).", 'C08': ' Constant metrics include every combination of 9 base classes with 13 expression templates (positive multiples, quotients, inverses formed before/after sqrt / eigendecomposition / inverse of the operand were computed).',
+    'C09': ' Templates include methods evaluated for the first time on a read-only (optionally pickled) snapshot followed by re-assignment of a writable copy.',
+    'C11': ' Gradients are requested in either order, twice, after other lazy attributes; low-rank updates also with a caller-supplied capacitance matrix; dense definite matrices with bare array, caller-supplied lower/upper/inverse-triangular factor, or obtained as the inverse of another dense matrix.',
+    'C12': ' Metropolis transitions must reject (state unchanged) whenever an exception cut the trajectory and never accept an intermediate state.',
+    'C13': ' Configurations with two statistics-bearing transitions declaring the same statistic names are judged row by row per transition; files in a user memmap directory are matched to returned arrays by content (the naming scheme is undocumented).',
+    'C15': ' Interrupts are also injected at the same point of EVERY chain with more chains than workers (queued chains never start); memory-map files are matched by content.',
+    'C17': ' A constrained-system case drives the real metric adapters on chain states used under the old metric and compares the refreshed momentum with P_new L_new z.',
+    'C19': ' The derived objects (T, inv, sqrt: their array, inverse, determinant) of two equal instances queried in different orders - including derived-last vs derived-first - must agree.',
+    'C20': ' Sums/differences are judged at the achievable scale eps*(|larger operand|+|result|) plus the rounding of lo-hi; programs mix in-place adds of plain numbers with reads of the linear value, which is judged after every step.',
+}
+for _k, _add in EXTRA_TEXT.items():
+    _lv, _tech, _text, _note, _ref = CHECKS[_k]
+    CHECKS[_k] = (_lv, _tech, _text + _add, _note, _ref)
+
+
 def main() -> None:
     props = [json.loads(line) for line in open(VERIF / "properties.jsonl")]
     hooks_commits = []
